@@ -216,6 +216,7 @@ fn main() {
                 claimed: Vec::new(),
                 depth: 0,
                 last_freed: None,
+                vecs: Default::default(),
             };
             let mut mk2 = |c: &Value| mk(c);
             run_root(&mut mk2, &mut ctx);
